@@ -93,7 +93,10 @@ def dispatch_abstract(it, fn, args, kwargs):
         t = c.fresh('tokens_after_step', z3.IntSort())
         c.assume(z3.And(t >= 0, t <= c.hget(lq, 'maxsize')))
         c.hset(lq, 'qsize', t)
-        c.hset(lq, 'unfinished', c.fresh('unf_after_step', z3.IntSort()))
+        u0 = c.hget(lq, 'unfinished')
+        u1 = c.fresh('unf_after_step', z3.IntSort())
+        c.assume(u1 >= u0)              # posts made by handlers only add unfinished tokens
+        c.hset(lq, 'unfinished', u1)
     # the step may also append to the instrumentation logs
     for holder, f in (('rtc', 'spy'), ('rtc', 'tuples'), ('full', 'spy'), ('full', 'trace')):
         dd = c.read(c.read(self, holder), f)
